@@ -1,5 +1,5 @@
 SPECIFICATION Spec
-CONSTANT Depth = 3
+CONSTANT Depth = 5
 CONSTANT MaxW = 6
 CONSTANT Small = FALSE
 CONSTRAINT Bound
